@@ -369,9 +369,59 @@ def exc_grid():
 # Which attempt's set_result comes last decides what the backend holds in the end: "the final attempt's outcome is the stored
 # result" is judged there on what the real InmemoryResultBackend holds for the task id when all spawned work has settled.
 PAUSES = ["sleep0", "sleep0", "sleep0x3", "timer", "future"]
-# An on_error hook that really suspends and runs AFTER the retry middleware's re-send sits between the re-send and the failing
-# attempt's set_result: on the unchanged tree the re-sent attempt then overtakes it (see notes/C11.md, finding, not generated).
-MW_AFTER_INMEM = [k for k in MW_ANY if k != "async_err"]
+# Two shapes on this path are KNOWN FINDINGS on the unchanged tree (known_findings.json; replays corpus/C11/known/d17.., d18..),
+# generated at a small rate so that their neighbourhood stays explored; a failure is explained by them only if it has EXACTLY
+# the shape (known_shape below):
+#   D17 inplace_nested_attempts_first_error_stored   InMemoryBroker(await_inplace=True), no_result_on_retry off: the attempts nest
+#                                                    inside on_error, set_result calls in reverse order, the first error is held
+#   D18 resent_attempt_overtakes_failing_attempt     default mode, a middleware AFTER the retry middleware whose on_error really
+#                                                    suspends, no_result_on_retry off: the re-sent attempt saves before the failing one
+SUSPENDING_ON_ERROR = ("async_err",)       # the MW_KINDS whose on_error really suspends (retry_driver.MwAsyncErr: await sleep(0))
+INPLACE_SHARE = .1
+D17, D18 = "inplace_nested_attempts_first_error_stored", "resent_attempt_overtakes_failing_attempt"
+HELD_WHAT = ("the result the backend holds for the task id when everything has settled is not the final attempt's outcome "
+             "(an earlier attempt's set_result came after the final attempt's)")
+
+
+def crash_free(case):
+    """pure data: neither max_retries nor _retries makes int() raise inside on_error (an exception that leaves on_error unwinds
+    through every nested attempt when the broker awaits in place - outside the statement and outside the model)"""
+    for name in ("max_retries", "_retries"):
+        v = lab(case, name)
+        if v is not None and v["t"] == "str":
+            try:
+                int(kstr(v["v"]))
+            except ValueError:
+                return False
+        elif v is not None and v["t"] not in ("int", "bool"):
+            return False
+    return True
+
+
+def known_shape(case, what, observed):
+    """the signature of the known finding a failure has EXACTLY the shape of, else None"""
+    env = case.get("env") or {}
+    if what != HELD_WHAT or env.get("broker") != "inmem" or case["mw"]["nror"] or not isinstance(observed, dict):
+        return None
+    order, frm = observed.get("set_result_order"), observed.get("held_result_saved_by_attempt")
+    if not observed.get("held") or not frm or not isinstance(order, list) or len(order) < 2 or len(set(order)) != len(order) \
+            or any(not isinstance(i, int) or i < 0 for i in order + frm):
+        return None
+    final = max(order)
+    if not all(i < final for i in frm):         # the backend holds an EARLIER attempt's result
+        return None
+    if env.get("inplace"):
+        # nested: every attempt's call comes after the calls of all later attempts
+        return D17 if order == sorted(order, reverse=True) else None
+    if any(k in SUSPENDING_ON_ERROR for k in env.get("mw_after", [])):
+        # some re-sent attempt's call comes BEFORE the call of the failing attempt that re-sent it
+        pos = {a: i for i, a in enumerate(order)}
+        return D18 if any(a + 1 in pos and pos[a + 1] < pos[a] for a in order) else None
+    return None
+
+
+def is_known_shape(sig):
+    return lambda f: known_shape(f["case"], f["what"], f.get("observed")) == sig and f.get("sig", {}).get("kind") == sig
 
 
 def gen_inmem_env(r):
@@ -410,7 +460,7 @@ def gen_inmem_env(r):
     elif r.random() < .4:
         env["stored"] = r.choice([-1, 1, 2])       # max_stored_results (never together with bystanders: they would evict)
     if r.random() < .4:
-        for pos, kinds in (("mw_before", MW_BEFORE_RETRY), ("mw_mid", MW_BEFORE_RETRY), ("mw_after", MW_AFTER_INMEM)):
+        for pos, kinds in (("mw_before", MW_BEFORE_RETRY), ("mw_mid", MW_BEFORE_RETRY), ("mw_after", MW_ANY)):     # (D18 lives in mw_after)
             n = r.choice([0, 0, 1, 1, 2])
             if n:
                 env[pos] = [r.choice(kinds) for _ in range(n)]
@@ -432,7 +482,10 @@ def gen_inmem_case(r):
             c["mw"]["count"] = r.choice([2, 3, 4, 6])
     if r.random() < .65:
         c["mw"]["nror"] = False                     # every attempt stores a result: the ORDER of the set_result calls matters
-    return with_env(c, gen_inmem_env(r))
+    env = gen_inmem_env(r)
+    if r.random() < INPLACE_SHARE and crash_free(c):
+        env["inplace"] = True                       # InMemoryBroker(await_inplace=True): kick awaits the callback (D17 lives here)
+    return with_env(c, env)
 
 
 def inmem_grid():
@@ -459,7 +512,11 @@ def inmem_grid():
              {"bystanders": 2}, {"bystanders": 3, "startup": True, "pause": "timer"},
              {"mw_before": ["async_err"]}, {"mw_mid": ["async_err", "subst"]}, {"mw_after": ["touch"]}, {"mw_after": ["hooks", "sync_err"]},
              {"mw_before": ["copy"], "mw_after": ["post_save_raises"], "retry_cls": "sub"}, {"retry_cls": "sub"},
-             {"nr": {"k": "nr_sub"}}]
+             {"nr": {"k": "nr_sub"}},
+             # the two known shapes and their neighbours
+             {"inplace": True}, {"inplace": True, "pause": "sleep0"}, {"inplace": True, "fn": "sync"},
+             {"inplace": True, "mw_after": ["async_err"]}, {"mw_after": ["async_err"]}, {"mw_after": ["async_err"], "pause": "timer"},
+             {"mw_after": ["async_err", "touch"], "fn": "sync"}, {"mw_after": ["async_err"], "bystanders": 2}]
     out = []
     for i, e in enumerate(envs):
         for b in (ffs_all, others[i % len(others)]):
@@ -729,6 +786,9 @@ def count_inmem(rep, c, o):
     rep.count("inmem:max_stored_results=%s" % env.get("stored", "default"))
     rep.count("inmem:sync_tasks_pool_size=%s" % env.get("pool", "default"))
     rep.count("inmem:typed-arguments=%s" % (c.get("typed") is not None))
+    rep.count("inmem:on_error-that-suspends-after-the-retry-middleware=%s" % any(k in SUSPENDING_ON_ERROR for k in env.get("mw_after", [])))
+    if st.get("save_order") and st["save_order"] != sorted(st["save_order"]):
+        rep.count("inmem:set_result-calls-not-in-attempt-order")
     if st.get("held"):
         rep.count("inmem:held-result-identified-by=" + str(st.get("by")))
     if len(ex) > 1:
@@ -916,9 +976,7 @@ def oracle(case, obs, fail):
             elif st is not None and o != "N" and not (st["held"] and i in st.get("held_from", [])):
                 # (in-memory path) the final attempt stored its outcome - but is that what the backend HOLDS for the task id
                 # now that everything has settled?  (no claim when the final attempt signalled no-result: it stores nothing)
-                fail("the result the backend holds for the task id when everything has settled is not the final attempt's outcome "
-                     "(an earlier attempt's set_result came after the final attempt's)",
-                     dict(held=st["held"], held_result_saved_by_attempt=st.get("held_from"), held_is_err=st.get("held_is_err"),
+                fail(HELD_WHAT, dict(held=st["held"], held_result_saved_by_attempt=st.get("held_from"), held_is_err=st.get("held_is_err"),
                           held_exc=st.get("held_exc"), set_result_order=st["save_order"]),
                      dict(held_result_saved_by_attempt=[i], is_err=want_st[1]))
 
@@ -1003,7 +1061,10 @@ def explore(ctx, rep, cases, label, shard=150):
 
         def fail(what, observed, expected, c=c):
             if len(rep.failures) - nfail < 3:
-                rep.fail(what, c, observed=observed, expected=expected, sig=dict(kind="retry"))
+                shape = known_shape(c, what, observed)
+                if shape is not None:
+                    rep.count("known-finding-shape-hit-by-a-generated-case:" + shape)
+                rep.fail(what, c, observed=observed, expected=expected, sig=dict(kind=shape or "retry"))
 
         oracle(c, o, fail)
         mr, roe = lab(c, "max_retries"), lab(c, "retry_on_error")
@@ -1079,15 +1140,46 @@ def run(ctx):
     rt = ctx.sub_rng("typed")
     broken = explore(ctx, rep, typed_grid() + [gen_typed_case(rt) for _ in range(ctx.n(300, 9000))], "typed") or broken
     known_alias(ctx, rep)
-    if (broken or any(not o["ok"] for o in rep.obligations)) and not [f for f in rep.failures if not is_alias(f)]:
+    known_inmem(ctx, rep)
+    if (broken or any(not o["ok"] for o in rep.obligations)) and not [f for f in rep.failures if not is_known(f)]:
         r2 = ctx.sub_rng("search")
         explore(ctx, rep, [gen_inmem_case(r2) if i % 8 == 7 else gen_env_case(r2) if i % 4 == 3 else gen_typed_case(r2) if i % 4 == 1
                            else gen_case(r2) for i in range(ctx.n(6000, 60000))], "search")
-    return rep.finish({"alias_field_lost": is_alias})
+    return rep.finish({"alias_field_lost": is_alias, D17: is_known_shape(D17), D18: is_known_shape(D18)})
 
 
 def is_alias(f):
     return f.get("sig", {}).get("kind") == "alias_field_lost"
+
+
+def is_known(f):
+    return is_alias(f) or is_known_shape(D17)(f) or is_known_shape(D18)(f)
+
+
+def known_inmem(ctx, rep):
+    """known findings D17 / D18 (known_findings.json): their corpus replays run on every check through the driver and the direct
+    oracle, the way D12's does.  The replay counts as the finding only if its failure has EXACTLY the finding's shape
+    (known_shape); any other failure of the replay is an ordinary failure; a replay that holds is noted as not reproducing."""
+    for sig, name in ((D17, "d17_inplace_nested_attempts"), (D18, "d18_resent_attempt_overtakes")):
+        path = os.path.join(C.VERIF, "corpus", "C11", "known", name + ".json")
+        if not os.path.exists(path):
+            continue
+        c = json.load(open(path))
+        o = C.run_driver(ctx, DRIVER, [c], nproc=1)[0]
+        rep.case(c, True)
+        rep.count("known-finding-replay:" + name)
+        if "_crash" in o:
+            rep.fail("driver crashed", c, observed=o["_crash"], sig=dict(kind="crash"))
+            continue
+        count_env(rep, c, o)
+        got = []
+        oracle(c, o, lambda what, observed, expected: got.append((what, observed, expected)))
+        rep.extra.setdefault("known_finding_replays", {})[sig] = (
+            "reproduces" if got and known_shape(c, got[0][0], got[0][1]) == sig else
+            "fails, but not with the finding's shape" if got else "does not reproduce on this tree (stale finding?)")
+        rep.count("known-finding-replay:%s:%s" % (name, "reproduces" if got else "does not reproduce"))
+        for what, observed, expected in got[:1]:
+            rep.fail(what, c, observed=observed, expected=expected, sig=dict(kind=known_shape(c, what, observed) or "retry"))
 
 
 def known_alias(ctx, rep):
